@@ -1087,6 +1087,15 @@ public:
       ghost_variables_t x_gvars = get_or_insert_gvars(x);
       ghost_variables_t y_gvars = get_or_insert_gvars(y);
 
+      const small_range &num_refs = m_rgn_env.at(y).refcount_val();
+      if (!(num_refs.is_zero() || num_refs.is_one())) {
+        // y might not be a singleton: as in region_copy, x must be a
+        // copy of the summary y but not equal to it.
+        x_gvars.forget(m_base_dom);
+        y_gvars.expand(m_base_dom, x_gvars);
+        return;
+      }
+
       if (dyn_ty.is_reference_region()) {
         // reference modeled as integer
         m_base_dom.assign(x_gvars.get_var(), y_gvars.get_var());
